@@ -183,12 +183,14 @@ pub struct Runner<'a> {
     pub grads: HashMap<String, (GradualDifficulty, u64)>,
     /// the builder value that "rcalc" calls keep using within one history
     pub reused: Option<rosu_pp::Difficulty>,
+    /// ... and the performance builder (over an owned copy of the map) that "rperf" calls keep using
+    pub reused_perf: Option<Performance<'static>>,
 }
 
 impl<'a> Runner<'a> {
     pub fn new(pool: &'a Pool) -> Self {
         let maps = pool.texts.iter().map(|(k, t)| (k.clone(), Beatmap::from_bytes(t.as_bytes()).expect("pool map decodes"))).collect();
-        Self { pool, maps, grads: HashMap::new(), reused: None }
+        Self { pool, maps, grads: HashMap::new(), reused: None, reused_perf: None }
     }
 
     /// Execute one call; returns (key, digest, panic).
@@ -212,6 +214,15 @@ impl<'a> Runner<'a> {
                 let d2 = prev.mods(cfg.game_mods());
                 let out = format!("{:?}", d2.calculate(&self.maps[&c.m]));
                 self.reused = Some(d2);
+                out
+            }
+            // a REUSED performance builder: it has calculated before (on a clone, so it still holds the map) and now gets the mods
+            // of these settings
+            "rperf" => {
+                let prev = self.reused_perf.take().unwrap_or_else(|| Performance::new(self.maps[&c.m].clone()));
+                let p = prev.mods(cfg.game_mods()).accuracy(96.5).misses(1);
+                let out = format!("{:?}", p.clone().calculate());
+                self.reused_perf = Some(p);
                 out
             }
             "strains" => format!("{:?}", d.strains(&self.maps[&c.m])),
@@ -260,6 +271,7 @@ pub fn record_main(args: &[String]) -> i32 {
         let run = |r: &mut Runner| -> Vec<String> {
             r.grads.clear();
             r.reused = None;
+            r.reused_perf = None;
             let mut out = Vec::new();
             for c in &h.calls {
                 let (key, dg, panic) = r.call(c);
@@ -318,6 +330,7 @@ fn exec_plain(pool: &Pool, maps: &Shared, c: &Call) -> (String, String, bool) {
         "strains" => format!("{:?}", d.strains(&maps[&c.m])),
         "perf" => format!("{:?}", Performance::new(&maps[&c.m]).difficulty(d.clone()).accuracy(94.2).misses(1).calculate()),
         "bpm" => format!("{:?}", maps[&c.m].bpm()),
+        "decode" => format!("{:?}", Beatmap::from_bytes(pool.texts[&c.m].as_bytes())),
         // conversions (the settings' mods decide the key count), by reference, and the calculation for a target mode on the source
         "tomania" => format!("{:?}", maps[&c.m].convert_ref(GameMode::Mania, &cfg.game_mods()).map(|m| m.into_owned())),
         "totaiko" => format!("{:?}", maps[&c.m].convert_ref(GameMode::Taiko, &cfg.game_mods()).map(|m| m.into_owned())),
@@ -435,6 +448,12 @@ pub fn threads_main(args: &[String]) -> i32 {
             for op in ["calc", "strains", "perf"] {
                 plain.push(Call { op: op.into(), m: m.into(), cfg: cfg.into(), h: "-".into() });
             }
+        }
+    }
+    // decoding and bpm() next to the calculations (shared text / shared map)
+    for m in ["m1", "m2", "m3", "m4", "m5"] {
+        for op in ["decode", "bpm"] {
+            plain.push(Call { op: op.into(), m: m.into(), cfg: "-".into(), h: "-".into() });
         }
     }
     // conversions of the two osu! maps under different key counts: several DIFFERENT conversions in flight at once
